@@ -270,12 +270,162 @@ def r2b_loop_carried(ctx: Context, v: CalibrateView) -> None:
         ctx.ok("R2.loop-carried", "Calibrator.calibrate:locals", f"{len(assigned)} locals assigned in the batch loop, none is live across iterations")
 
 
+def _blanked_by_getstate(prog, c, m) -> set[str] | None:
+    """Attribute names a `__getstate__` of the shape `state = dict(self.__dict__) / self.__dict__.copy(); <blank or drop the names of X>; return state` leaves out,
+    X being a literal tuple of names or a class-level tuple (`self._scratch_attributes`, united over the hierarchy: subclasses extend it).  None: not that shape."""
+    body = [st for st in m.node.body if not (isinstance(st, ast.Expr) and isinstance(st.value, ast.Constant))]
+    if len(body) < 2 or not isinstance(body[0], ast.Assign) or not isinstance(body[0].targets[0], ast.Name) or not isinstance(body[-1], ast.Return) or src(body[-1].value) != body[0].targets[0].id:
+        return None
+    st_name = body[0].targets[0].id
+    if src(body[0].value) not in (f"dict({m.self_name}.__dict__)", f"{m.self_name}.__dict__.copy()", f"{{**{m.self_name}.__dict__}}"):
+        return None
+
+    def names_of(e: ast.expr) -> set[str] | None:
+        if isinstance(e, (ast.Tuple, ast.List, ast.Set)) and all(isinstance(x, ast.Constant) and isinstance(x.value, str) for x in e.elts):
+            return {x.value for x in e.elts}
+        if isinstance(e, ast.Attribute) and isinstance(e.value, ast.Name) and e.value.id == m.self_name:
+            out: set[str] = set()
+            found = False
+            for k in [*prog.mro(c), *prog.subclasses(c, strict=True)]:
+                v = k.class_vars.get(e.attr)
+                if v is not None:
+                    got = names_of(v)
+                    if got is None:
+                        return None
+                    out |= got
+                    found = True
+            return out if found else None
+        if isinstance(e, ast.BinOp) and isinstance(e.op, ast.Add):
+            a, b = names_of(e.left), names_of(e.right)
+            return None if a is None or b is None else a | b
+        if isinstance(e, ast.Starred):
+            return names_of(e.value)
+        if isinstance(e, ast.Tuple):
+            parts = [names_of(x) if isinstance(x, ast.Starred) else ({x.value} if isinstance(x, ast.Constant) and isinstance(x.value, str) else None) for x in e.elts]
+            return None if any(p is None for p in parts) else set().union(*parts)
+        return None
+    dropped: set[str] = set()
+    for st in body[1:-1]:
+        got = None
+        if isinstance(st, ast.Expr) and isinstance(st.value, ast.Call) and src(st.value.func) == f"{st_name}.update" and len(st.value.args) == 1 and isinstance(st.value.args[0], ast.Call) \
+                and src(st.value.args[0].func) == "dict.fromkeys" and 1 <= len(st.value.args[0].args) <= 2:
+            got = names_of(st.value.args[0].args[0])
+        elif isinstance(st, ast.For) and isinstance(st.target, ast.Name) and len(st.body) == 1 and not st.orelse:
+            b0 = st.body[0]
+            k = st.target.id
+            if (isinstance(b0, ast.Assign) and src(b0.targets[0]) == f"{st_name}[{k}]") or (isinstance(b0, ast.Delete) and src(b0.targets[0]) == f"{st_name}[{k}]") \
+                    or (isinstance(b0, ast.Expr) and isinstance(b0.value, ast.Call) and src(b0.value.func) == f"{st_name}.pop" and b0.value.args and src(b0.value.args[0]) == k):
+                got = names_of(st.iter)
+        if got is None:
+            return None
+        dropped |= got
+    return dropped
+
+
+def _read_before_write(prog, k, mname: str, attrs: set[str], memo: dict, active: set) -> tuple:
+    """Summary of method `mname` as resolved on class `k`: which of `attrs` it may read (itself or through `self.m()` calls) before they were written on the
+    same path, and which it certainly writes on every path to its normal exit.  Forward must-written dataflow over the statement CFG; callee summaries are applied
+    at call nodes (calls first, then the node's own reads, then its stores)."""
+    f = next((kk.methods[mname] for kk in prog.mro(k) if mname in kk.methods), None)
+    key = (k.name, mname)
+    if key in memo:
+        return memo[key]
+    if f is None or f.self_name is None or key in active:
+        return {}, set(), set()
+    active.add(key)
+    g = CFG(f.node)
+    sn = f.self_name
+    reads: dict[str, tuple] = {}
+    IN: dict = {g.entry: (frozenset(), frozenset())}
+    work = [g.entry]
+    exit_states = []
+    seen_out: dict = {}
+    while work:
+        nd = work.pop()
+        st = set(IN[nd][0])
+        may = set(IN[nd][1])
+        a = nd.ast
+        if a is not None and nd.kind not in ("join",):
+            parts = [a.iter] if nd.kind == "for" and isinstance(a, ast.For) else [a.test] if nd.kind == "test" and hasattr(a, "test") and not isinstance(a, ast.expr) else [a]
+            if isinstance(a, (ast.With,)):
+                parts = [it.context_expr for it in a.items]
+            for part in parts:
+                calls = [x for x in ast.walk(part) if isinstance(x, ast.Call) and isinstance(x.func, ast.Attribute) and isinstance(x.func.value, ast.Name) and x.func.value.id == sn]
+                for c_ in sorted(calls, key=lambda x: (x.lineno, x.col_offset)):
+                    r2, w2, m2 = _read_before_write(prog, k, c_.func.attr, attrs, memo, active)
+                    for at, wh in r2.items():
+                        if at not in st:
+                            reads.setdefault(at, (*wh[:2], wh[2] and at not in may))
+                            if wh[2] and at not in may:
+                                reads[at] = (*wh[:2], True)
+                    st |= w2
+                    may |= m2
+                for x in ast.walk(part):
+                    if isinstance(x, ast.Attribute) and isinstance(x.value, ast.Name) and x.value.id == sn and x.attr in attrs and isinstance(x.ctx, ast.Load) and x.attr not in st:
+                        definite = x.attr not in may
+                        if x.attr not in reads or (definite and not reads[x.attr][2]):
+                            reads[x.attr] = (f, x, definite)
+                for x in ast.walk(part):
+                    if isinstance(x, ast.Attribute) and isinstance(x.value, ast.Name) and x.value.id == sn and x.attr in attrs and isinstance(x.ctx, ast.Store):
+                        st.add(x.attr)
+                        may.add(x.attr)
+        out = (frozenset(st), frozenset(may))
+        if nd.kind in ("exit", "return"):
+            exit_states.append(out)
+        for t, lab in nd.succ:
+            if lab in ("exc",):
+                continue
+            new = out if t not in IN else (IN[t][0] & out[0], IN[t][1] | out[1])
+            if t not in IN or new != IN[t]:
+                IN[t] = new
+                work.append(t)
+    must = set(attrs)
+    mayw: set[str] = set()
+    for es in exit_states:
+        must &= es[0]
+        mayw |= es[1]
+    if not exit_states:
+        must = set()
+    active.discard(key)
+    memo[key] = (reads, must, mayw)
+    return memo[key]
+
+
+def _carried_between_calls(prog, c, attr: str) -> tuple | None:
+    """Entering the sampler through its public per-batch entry points (`sample`, `sample_batch`, and for other classes every public method), can `self.<attr>` be
+    read before it was written in that same call?  Then its value is carried from one call to the next, and leaving it out of the pickle changes a restored run."""
+    for k in [c, *prog.subclasses(c, strict=True)]:
+        entries = [m for kk in prog.mro(k) for m in kk.methods if not m.startswith("_")]
+        if "sample_batch" in entries:
+            entries = ["sample", "sample_batch"]     # how the scheduler / calibrator drive a sampler (fit / predict are steps of sample_batch)
+        memo: dict = {}
+        for e in sorted(set(entries)):
+            r, _w, _m = _read_before_write(prog, k, e, {attr}, memo, set())
+            if attr in r:
+                if not r[attr][2]:
+                    raise AnalysisError(f"{r[attr][0].loc(r[attr][1])}: `{attr}` is read by {r[attr][0].qualname.split(':')[1]} after a write that only some paths make; whether it is scratch "
+                                        "depends on how the branch conditions are correlated, which is not decided")
+                return r[attr]
+    return None
+
+
 def r2c_pickle_hooks(ctx: Context) -> None:
     prog = ctx.prog
     classes = c04.reachable_classes(prog, [prog.find_class("BaseScheduler")])
     for c in classes:
         for hook in ("__getstate__", "__setstate__", "__reduce__", "__reduce_ex__", "__deepcopy__", "__copy__", "__getnewargs__"):
             m = c.methods.get(hook)
+            if m is not None and hook == "__getstate__" and "__setstate__" not in c.methods:
+                # a hook that only leaves named attributes out: fine when every one of them is scratch (written before it is read in every method that reads it)
+                blanked = _blanked_by_getstate(prog, c, m)
+                if blanked is None:
+                    raise AnalysisError(f"{m.loc(m.node)}: {c.name}.__getstate__ customises pickling in a way that cannot be read (which attributes leave the checkpoint?)")
+                for a in sorted(blanked):
+                    hit = _carried_between_calls(prog, c, a)
+                    ctx.check(hit is None, "R2.pickle-hooks", f"{c.name}.__getstate__:{a}", f"`{a}` is left out of the pickle and is scratch: every method writes it before reading it",
+                              f"{c.name}.__getstate__ leaves `{a}` out of the checkpoint, but {hit[0].qualname.split(':')[1] if hit else '?'} can read it before writing it: "
+                              "a restored run continues without state the uninterrupted run has", m, m.node)
+                continue
             ctx.check(m is None, "R2.pickle-hooks", f"{c.name}.{hook}", f"{c.name} does not customise {hook}", f"{c.name}.{hook} customises pickling: state may be dropped from the checkpoint", m, m.node if m else None)
         slots = c.class_vars.get("__slots__")
         if slots is not None:
